@@ -328,6 +328,24 @@ theorem death_kill (e : Env) (ta ka : Option Nat) (h : death e ta ka = some .sig
               | none => simp [killExit] at h''
               | some k => simp
 
+/-- A death by SIGTERM means SIGTERM was delivered. -/
+theorem death_term (e : Env) (ta ka : Option Nat) (h : death e ta ka = some .sigTerm) : ta.isSome := by
+  unfold death at h
+  cases hx : exitTime e ta ka with
+  | none => simp [hx] at h
+  | some x =>
+    simp only [hx] at h
+    split at h
+    · split at h <;> cases h
+    · split at h
+      · split at h <;> cases h
+      · split at h
+        · rename_i h3
+          cases ta with
+          | none => simp [termExit] at h3
+          | some t => simp
+        · cases h
+
 /-! ### per behaviour class -/
 
 /-- A child that exits on stdin EOF (or by itself) in time is never signalled: Close returns cmd.Wait's
